@@ -92,7 +92,19 @@ def rule_e_loop_exit(ctx, cfg='prod-all'):
                     rel = strict_flip[rel]
                 bound = sides[1] if drawn[0] else sides[0]
                 if 'le' in bound:
-                    target['gt' if rel == '>' else 'lt'] = True
+                    # the bound itself, where it is written out in ciphersuite constants: 2^(le - 1) below, 2^le above (`2^le` below lets no
+                    # exponent through, `2^(le - 2)` is another interval)
+                    import rf_senses
+                    bi_ = 1 if drawn[0] else 0
+                    right = True
+                    if g2.oargs and bi_ < len(g2.oargs) and g2.fn:
+                        gfd = eng.fndep(g2.fn)
+                        for val in rf_senses._envs():
+                            v = rf_senses._const_eval(gfd, g2.oargs[bi_], val) if gfd is not None else None
+                            if v is not None and v != 2 ** (val('le') - (1 if rel == '>' else 0)):
+                                right = False
+                    if right:
+                        target['gt' if rel == '>' else 'lt'] = True
             if w in ('eq', 'Eq', 'ne', 'Ne'):
                 holds = t if w in ('eq', 'Eq') else (not t)
                 alln = sides[0] | sides[1]
@@ -330,6 +342,141 @@ def rule_secure_pow_exponents(ctx, cfg='prod-all', scope=('cl03::', 'utils::rand
                      '%s L%s' % (b.file(), t.get('line')), fact={'exponent_from': fmt_atoms(b, at)[:6], 'from_arguments': outside[:4]}, expected='literal > 0 or random_bits / random_prime')
             k_site += 1
     yield Ob('RF-F', 'cl03#secure-pow-sites', n >= 1, 'calls of secure_pow_mod examined', '', fact=n, expected='>= 1', nontrivial=False)
+
+
+def rule_no_inclusive_count_ranges(ctx, cfg='prod-all', scope=('cl03::', 'utils::random')):
+    """`0..=n` over a count or a length n visits n + 1 positions: one base too many, a default position list one longer than the attribute
+    vector (the last position then has no attribute: an honest call panics), a loop that indexes one past the end.  The CL03 code has no such
+    range; one that starts at 0 and ends at a length, a count parameter or an attribute count has to be tabled (none is).  (`1..=n` is the same
+    positions as `0..n` shifted and is not looked at.)"""
+    prog, za = ctx.prog(cfg), ctx.zone(cfg)
+    n_ranges = 0
+    found = []
+    for p, b in sorted(prog.bodies.items()):
+        if b.from_expansion or not p.startswith(scope):
+            continue
+        if b.kind != 'Closure':
+            za.summary(p)
+        zf = za.zf(p)
+        for bi, st in b.stmts():
+            rv = st.get('rv') or {}
+            if st['k'] == 'assign' and rv.get('k') == 'agg' and str(rv.get('name', '')).endswith(('ops::Range', 'range::Range')):
+                n_ranges += 1
+        for bi, t in b.calls():
+            if not (t.get('callee') or '').endswith('RangeInclusive::<Idx>::new') or len(t['args']) != 2:
+                continue
+            n_ranges += 1
+            a, e = zf.term_op(t['args'][0]), zf.term_op(t['args'][1])
+            if a is not None and a[0] is None and a[1] == 0 and (e is None or e[0] is not None):
+                found.append({'in': p.split('::')[-1], 'line': t.get('line'), 'ends_at': (e[0] if e else '?')})
+    yield Ob('RF-P', 'cl03#inclusive-ranges-from-zero', not found, 'no range `0..=n` over a count or length (it visits n + 1 positions)', '',
+             fact={'ranges_examined': n_ranges, 'inclusive_from_zero': found[:6]}, expected='none')
+    yield Ob('RF-P', 'cl03#ranges-examined', n_ranges >= 8, 'ranges examined', '', fact=n_ranges, expected='>= 8', nontrivial=False)
+
+
+def rule_constant_base_positions(ctx, cfg='prod-all', scope=('cl03::',)):
+    """Where the CL03 code takes a base by a *literal* position, the position is 0: `a_0` for the only attribute of `sign` / `verify` and for the
+    blinding value of the per-attribute proofs, `g_0` of the commitment key.  Every other base is selected by the position of its attribute (a
+    variable: RF-B).  A literal other than 0 pairs a value with a base no step of the protocols names - the two sides then disagree (signing with
+    `a_1`, verifying with `a_0`)."""
+    prog, eng = ctx.prog(cfg), ctx.eng(cfg)
+    n, bad = 0, []
+    for p, b in sorted(prog.bodies.items()):
+        if b.from_expansion or not p.startswith(scope):
+            continue
+        fd = eng.fndep(p)
+        for bi, t in b.calls():
+            cal = t.get('callee') or ''
+            if not cal.endswith(('Index::index', 'IndexMut::index_mut', '::get', '::get_mut')) or len(t['args']) != 2 or t['args'][1].get('k') != 'const' or 'int' not in t['args'][1]:
+                continue
+            at = fmt_atoms(b, fd.read_op(t['args'][0]))
+            if not any(x.endswith(('a_bases.0', 'g_bases', 'a_bases')) or '.g_bases' in x or 'bases' in x.split('.')[-1] for x in at):
+                continue
+            n += 1
+            if t['args'][1]['int'] != '0':
+                bad.append({'in': p.split('::')[-1], 'line': t.get('line'), 'list': at[:2], 'position': t['args'][1]['int']})
+    yield Ob('RF-B', 'cl03#literal-base-positions', not bad, 'a base taken by a literal position is the base of position 0', '',
+             fact={'sites': n, 'other_positions': bad[:6]}, expected='all 0')
+    yield Ob('RF-B', 'cl03#literal-base-sites', n >= 10, 'literal positions in base lists examined', '', fact=n, expected='>= 10', nontrivial=False)
+
+
+def rule_no_early_accept(ctx, cfg='prod-all'):
+    """A verifier that examines a list part by part (the per-attribute proofs, the range proofs) says *true* only after the loop has run to its end.
+    A `return true` reached from inside the loop - before the list is exhausted - accepts after looking at some of the parts only (a refusal
+    `return false` inside the loop turned into `return true` keeps every test in place and on the same operands).  In every bool function
+    reachable from the CL03 verifier entry points: no block that builds `true` is dominated by the header of a loop unless the loop's exit on
+    exhaustion dominates it as well."""
+    from flow import accept_blocks, walk
+    import rf_gatesets
+    prog, eng = ctx.prog(cfg), ctx.eng(cfg)
+    seen, n_loops, bad = set(), 0, []
+    for e in rf_gatesets.ENTRIES['cl03']:
+        entry = resolve_fn(prog, e)
+        for fr in walk(eng, entry.path, include_closures=False):
+            if fr.path in seen or not fr.path.startswith('cl03::') or fr.body.local_ty(0) != 'bool':
+                continue
+            seen.add(fr.path)
+            b, fd = fr.body, fr.fd
+            acc = [(bi, kind) for bi, kind, extra in accept_blocks(fd) if kind in ('true',)]
+            for h, blocks in b.natural_loops():
+                n_loops += 1
+                # the exit taken when the iteration is over: the successor outside the loop of the block that asks the iterator for the next item
+                ex = set()
+                for x in blocks:
+                    t = b.blocks[x]['term']
+                    if t['k'] == 'switch':
+                        for y in b.succ[x]:
+                            if y not in blocks and not b.diverges(y):
+                                ex.add((x, y))
+                exhaustion = [y for x, y in ex if any(b.blocks[pp]['term']['k'] == 'call' and (b.blocks[pp]['term'].get('callee') or '').endswith('Iterator::next') for pp in b.pred[x])]
+                for a, kind in acc:
+                    if a in blocks or (b.dominates(h, a) and exhaustion and not any(b.dominates(y, a) for y in exhaustion)):
+                        bad.append({'in': fr.path.split('::')[-1], 'line': b.blocks[a]['term'].get('line') or (b.blocks[a]['stmts'][-1].get('line') if b.blocks[a]['stmts'] else None)})
+    yield Ob('RF-D', 'cl03#no-accept-inside-a-loop', not bad, 'no verifier says true from inside a loop over the parts of a proof (before the loop is exhausted)', '',
+             fact={'bool_functions': len(seen), 'loops': n_loops, 'early_accepts': bad[:6]}, expected='none')
+    yield Ob('RF-D', 'cl03#verifier-loops', n_loops >= 4, 'loops of the verifiers examined', '', fact=n_loops, expected='>= 4', nontrivial=False)
+
+
+def rule_range_statement_intervals(ctx, cfg='prod-all'):
+    """The intervals the range proofs of an issuance proof and of a signature proof are *about*: an attribute lies in [0, 2^lm - 1], the exponent
+    e in [2^(le-1) + 1, 2^le - 1], the commitment randomness in [0, 2^ln - 1].  At every call of the range prover / verifier in `cl03::proof` the two
+    bounds, evaluated as functions of the ciphersuite constants, are one of these three pairs - so prover and verifier state the same interval and it
+    is the interval of the quantity proven (`2^lm` for `2^lm - 1`, `2^(le-2)`, `max - 2` are other intervals)."""
+    import rf_senses
+    prog, eng = ctx.prog(cfg), ctx.eng(cfg)
+    n, bad = 0, []
+    sides = {'prove': 0, 'verify': 0}
+    for p, b in sorted(prog.bodies.items()):
+        if not p.startswith('cl03::proof::') or b.from_expansion:
+            continue
+        fd = eng.fndep(p)
+        for bi, t in b.calls():
+            tgt = local_target(eng, t) or ''
+            if not tgt.endswith(('Boudot2000RangeProof::prove', 'Boudot2000RangeProof::verify')):
+                continue
+            cb = prog.bodies[tgt]
+            ka, kb = cb.param_index('rmin'), cb.param_index('rmax')
+            if ka is None or kb is None:
+                raise AnchorMissing('%s: parameters rmin / rmax' % tgt)
+            n += 1
+            sides[tgt.split('::')[-1]] += 1
+            which = set()
+            for i_env, val in enumerate(rf_senses._envs()):
+                lo, hi = rf_senses._const_eval(fd, t['args'][ka - 1], val), rf_senses._const_eval(fd, t['args'][kb - 1], val)
+                exp = {'attribute [0, 2^lm - 1]': (0, 2 ** val('lm') - 1), 'exponent [2^(le-1) + 1, 2^le - 1]': (2 ** (val('le') - 1) + 1, 2 ** val('le') - 1),
+                       'randomness [0, 2^ln - 1]': (0, 2 ** val('ln') - 1)}
+                hit = {k for k, v in exp.items() if v == (lo, hi)}
+                which = hit if i_env == 0 else (which & hit)
+                if lo is None or hi is None:
+                    which = None
+                    break
+            if which is None:
+                continue          # bounds handed in from elsewhere: not stated at this call
+            if len(which) != 1:
+                bad.append({'in': p.split('::')[-1], 'line': t.get('line'), 'callee': tgt.split('::')[-1]})
+    yield Ob('RF-Q', 'cl03::proof#range-statements', not bad, 'every range proof is made and checked for the interval of the quantity it is about', '',
+             fact={'calls': n, 'prover_calls': sides['prove'], 'verifier_calls': sides['verify'], 'other_intervals': bad[:6]}, expected='tabled intervals')
+    yield Ob('RF-Q', 'cl03::proof#range-statement-calls', sides['prove'] >= 2 and sides['verify'] >= 2, 'range prover / verifier calls examined', '', fact=sides, expected='>= 2 each', nontrivial=False)
 
 
 PAYLOAD_ADAPTERS = ('::map', '::and_then', '::map_or', '::map_or_else', '::inspect', '::into_iter', '::iter', '::unwrap_or', '::unwrap_or_default', '::unwrap_or_else')
